@@ -203,6 +203,61 @@ def h_store_stats(n=3):
     return h
 
 
+def h_sweep(n=2, rounds=2):
+    """EIG.run() followed by EIG.sweep(): whatever sweep leaves in EIG.mu, the counts, eigenvectors and participation
+    factors stored next to it must belong to the same analysis (the property quantifies over operating points
+    'including after parameter sweeps').  The real sweep and _store_stats run; calc_As and the LAPACK-backed
+    calc_eig/calc_pfactor are stand-ins returning arbitrary eigenvalues per round, tagged with the round."""
+    def h(I):
+        from andes.routines.eig import EIG
+        tol = I.real('tol')
+        I.assume(LT(0, tol))
+        mus, res = [], []
+        for k in range(rounds + 1):
+            re = I.arr(*[f'r{k}_re{i}' for i in range(n)])
+            im = I.arr(*[f'r{k}_im{i}' for i in range(n)])
+            res.append(re)
+            mus.append(CArr(re, im) if I.symbolic else (np.array(re, dtype=float) + 1j * np.array(im, dtype=float)))
+        st = NS(round=0)
+
+        class E:
+            pass
+        E.sweep = rebind(EIG.sweep)
+        E._store_stats = EIG._store_stats
+        e = E()
+        e.config = NS(tol=tol)
+        e.system = NS(TDS=NS(init=lambda: True, itm_step=lambda: True, initialized=True))
+
+        def calc_As(*a, **k):
+            st.round += 1          # a new operating point has been linearised
+            e.As = ('As', st.round)
+            return e.As
+        e.calc_As = calc_As
+        e.calc_eig = lambda As=None: (mus[st.round], ('N', st.round))
+        e.calc_pfactor = lambda As=None: (mus[st.round], ('pf', st.round), ('N', st.round), ('W', st.round))
+        # what run() leaves behind
+        e.As = ('As', 0)
+        e.mu, e.pfactors, e.N, e.W = e.calc_pfactor()
+        e._store_stats()
+        par = NS(owner=NS(idx2uid=lambda idx: 0), name='M', v=np.array([1.0, 1.0]))
+        out_ = e.sweep(par, 'GENCLS_1', [2.0 + k for k in range(rounds)])
+        ok = isinstance(out_, dict) and len(out_) == rounds
+        k = next((j for j in range(rounds + 1) if e.mu is mus[j]), None)
+        if not ok or k is None:
+            return [('sweep returns one result per value and stores one of the computed spectra', False)]
+        re = res[k]
+        pos = sum(ITE(LT(tol, re[i]), 1.0, 0.0) for i in range(n))
+        neg = sum(ITE(LT(re[i], -tol), 1.0, 0.0) for i in range(n))
+        zer = sum(ITE(AND(LE(-tol, re[i]), LE(re[i], tol)), 1.0, 0.0) for i in range(n))
+        return [('after sweep: stored spectrum is that of the last operating point', k == rounds),
+                ('after sweep: n_positive counts the stored eigenvalues', EQ(e.n_positive, pos)),
+                ('after sweep: n_zeros counts the stored eigenvalues', EQ(e.n_zeros, zer)),
+                ('after sweep: n_negative counts the stored eigenvalues', EQ(e.n_negative, neg)),
+                ('after sweep: participation factors belong to the stored eigenvalues', e.pfactors == ('pf', k)),
+                ('after sweep: eigenvectors belong to the stored eigenvalues', e.N == ('N', k))]
+    return h
+
+
 class NPNoRound:
     """numpy proxy for calc_pfactor: np.round is the identity (the claim is about the factors before rounding
     to 5 decimals); everything else is numpy"""
@@ -319,6 +374,8 @@ def job(spec):
                      region=lambda v, c: ('zero-T ' if any(zp) else '') + region_of(v, c))
     if kind == 'stats':
         return H.run('EIG._store_stats', h_store_stats(3), region=region_of)
+    if kind == 'sweep':
+        return H.run(f'EIG.sweep after run[n={arg[0]},rounds={arg[1]}]', h_sweep(*arg), region=lambda v, c: c.split(':')[0])
     if kind == 'pf':
         return H.run(f'EIG.calc_pfactor[n={arg}]', h_pfactor(arg), timeout_ms=60000, region=lambda v, c: c.split(' of mode')[0].split('[')[0].strip())
     if kind == 'assoc':
@@ -332,7 +389,7 @@ def main():
                     '(division-free via adjugates); _store_stats partition; calc_pfactor normalisation and sign with LAPACK '
                     'stubbed by an arbitrary invertible eigenvector matrix; arg-max of the report loop cut from the source.')
     from andes.routines.eig import EIG
-    ck.encodes(EIG.calc_As, EIG._reduce, EIG._reorder, EIG.find_zero_states, EIG._store_stats, EIG.calc_pfactor, EIG.report)
+    ck.encodes(EIG.calc_As, EIG._reduce, EIG._reorder, EIG.find_zero_states, EIG._store_stats, EIG.calc_pfactor, EIG.report, EIG.sweep)
     thorough = core.tier() == 'thorough'
     sizes = [(2, 1), (2, 2), (3, 1)] + ([(3, 2)] if thorough else [])
     ck.bound(states='n <= 3', algebraic='m <= 2', zero_T_patterns='all 2^n - 1 proper patterns with at least one non-zero T',
@@ -355,7 +412,7 @@ def main():
                 continue
             jobs.append(('As', (n, m, zp)))
     jobs += [('As2', (2, 1, (0, 0), (0, 1))), ('As2', (2, 1, (0, 1), (1, 0))), ('As2', (3, 1, (0, 0, 0), (0, 1, 0)))]
-    jobs += [('stats', 0), ('pf', 2), ('pf', 3), ('assoc', 3)]
+    jobs += [('stats', 0), ('sweep', (2, 1)), ('sweep', (3 if thorough else 2, 2)), ('pf', 2), ('pf', 3), ('assoc', 3)]
     ck.merge(core.pmap(job, jobs))
     ck.sample({'obligation': 'As[a,b]*dgy*det(G_ZZ)*T_i == det(G_ZZ)*G_ij - G_iZ adj(G_ZZ) G_Zj, G = dgy*fx - fy adj(gy) gx'})
     ck.finish()
